@@ -39,8 +39,11 @@
   │   dict(zip(seg_ids_t, node_ids_t))                        │ `dictOf` (fold of `aset`: first  │
   │                                                           │  position, LAST value)           │
   │   new = zeros; new[t][computed_seg[t] == seg_id] = node_id│ `W`, `applyWrites`               │
-  │ import_export/_tracks_builder.py handle_segmentation      │ `importSeg`                      │
-  │   np.array_equal(seg_ids, node_ids) → returned unchanged  │ first branch of `importSeg`      │
+  │ import_export/_tracks_builder.py handle_segmentation      │ `importSeg` (AS REPAIRED by      │
+  │   (seg_id property present)                               │  fixes/D11_…patch: always calls  │
+  │                                                           │  relabel_segmentation)           │
+  │   np.array_equal(seg_ids, node_ids) → returned unchanged  │ first branch of `importSegOrig`  │
+  │     (UNREPAIRED tree, D11)                                │                                  │
   └───────────────────────────────────────────────────────────┴──────────────────────────────────┘
 
   Masked assignment.  Both relabelling functions read every mask from the ORIGINAL array and
@@ -225,8 +228,14 @@ def relabelSegChained (orig : Arr) (g : G) (rows : List Row) : Option (Arr × G)
     some (applyWritesChained orig (segWrites off rows), shiftGraph off g)
   else none
 
-/-- `TracksBuilder.handle_segmentation`: relabelling is skipped when seg ids equal node ids -/
+/-- `TracksBuilder.handle_segmentation` with a seg-id property, AS REPAIRED
+    (fixes/D11_import_seg_skip_branch.patch): always relabels -/
 def importSeg (orig : Arr) (g : G) (rows : List Row) : Option (Arr × G) :=
+  relabelSeg orig g rows
+
+/-- the UNREPAIRED caller (defect D11): relabelling is skipped when `np.array_equal(seg_ids,
+    node_ids)`, which leaves labels that belong to no node in the array -/
+def importSegOrig (orig : Arr) (g : G) (rows : List Row) : Option (Arr × G) :=
   if rows.all (fun r => r.seg == r.id) then some (orig, g) else relabelSeg orig g rows
 
 /-! ### line protocol  (tag `LB`)
@@ -238,7 +247,8 @@ def importSeg (orig : Arr) (g : G) (rows : List Row) : Option (Arr × G) :=
   LB bt  <array> N (id <opt time> <opt seg>)ᴺ E (u v)ᴱ   (<opt> := `0` missing | `1 x`)
                                          → `ok <flat labels>` | `err`
   LB rs  <array> N ids E (u v)ᴱ R (id seg time)ᴿ
-  LB imp …same…                          → `ok <flat labels> | N sorted ids | E sorted edges` | `err`
+  LB imp …same…  (handle_segmentation, repaired)   LB impo …same… (… as on the unrepaired tree)
+                                         → `ok <flat labels> | N sorted ids | E sorted edges` | `err`
 -/
 
 def parseFrames : Nat → List Nat → Option (Arr × List Nat)
@@ -359,6 +369,9 @@ def handle : List String → String
       | none => "bad-op"
   | "imp" :: rest => match parseNats rest >>= parseSegArgs with
       | some (a, g, rows) => renderSegG (importSeg a g rows)
+      | none => "bad-op"
+  | "impo" :: rest => match parseNats rest >>= parseSegArgs with
+      | some (a, g, rows) => renderSegG (importSegOrig a g rows)
       | none => "bad-op"
   | _ => "bad-op"
 
